@@ -20,9 +20,12 @@ CONSTANTS
   BugExtendNoToken = FALSE
   BugThreshold = FALSE
   BugIgnoreInval = FALSE
+  BugLostByCause = FALSE
+  BugNilNoGate = FALSE
+  DiscParkedOnly = FALSE
   Record = FALSE
   GenLen = 0
-INVARIANTS TypeOK MutualExclusion DoneBeforeRelease NoLostWakeup CountersOK NoStaleKeys ExtendsOwnKeyOnly CancelAtMajorityLoss
+INVARIANTS TypeOK MutualExclusion DoneBeforeRelease NoLostWakeup CountersOK NoStaleKeys ExtendsOwnKeyOnly CancelAtMajorityLoss LostCounterOK
 
 
 CHECK_DEADLOCK FALSE
